@@ -4,16 +4,39 @@
    responsive broker. *)
 EXTENDS MonBase
 
+(* First clause, for the one kind of due work a monitor can date exactly - an ack timeout: the deadline of an acknowledged
+   operation submitted with a timeout is the moment its packet was completely written plus the timeout; while it is
+   unresolved and the engine is connected, every next-service time the engine reports is no later than that deadline
+   (or than now, once it has passed) - in every run, whatever the driver does (a write completion may be long in coming). *)
 Init0 == [run |-> 0, skip |-> FALSE, errs |-> <<>>,
+          tops |-> EmptyMap,     \* op -> [tmo, w] for acknowledged operations with an ack timeout; w = -1: not completely written on this connection
+          owner |-> EmptyMap,    \* packet id -> op, for the PUBREL half of a QoS 2 publish
           faithful |-> FALSE,
           atQuiesce |-> FALSE,   \* the last marker was a Quiesce on a live connection with a responsive broker
           qstate |-> "",
           idle |-> 0,            \* consecutive service calls, at a reported "now", that did nothing
           lastT |-> -1, lastState |-> ""]
 
-Apply(m, e) ==
-    IF e.ev = "Cfg" THEN [Init0 EXCEPT !.run = e.run, !.errs = m.errs, !.faithful = (e.faithful = 1)]
-    ELSE IF m.skip \/ ~m.faithful THEN m
+Deadlines(m) == {m.tops[k].w + m.tops[k].tmo : k \in {x \in DOMAIN m.tops : m.tops[x].w >= 0}}
+MinOfSet(S) == CHOOSE x \in S : \A y \in S : x <= y
+
+\* bookkeeping of ack-timeout deadlines and the timer rule; every run
+Timers(m, e) ==
+    CASE e.ev = "Submit" /\ e.tmo >= 0 /\ e.tmo < 1000000000 /\ NeedsAck(e.kind, e.qos) -> [m EXCEPT !.tops = Put(@, e.op, [tmo |-> e.tmo, w |-> -1])]
+      [] e.ev = "Tx" /\ e.partial = 0 /\ e.op # 0 /\ Has(m.tops, e.op) /\ e.type \in {"PUBLISH", "SUBSCRIBE", "UNSUBSCRIBE"} ->
+             [m EXCEPT !.tops[e.op].w = e.t, !.owner = Put(@, e.pid, e.op)]
+      [] e.ev = "Complete" /\ Has(m.tops, e.op) -> [m EXCEPT !.tops = Drop(@, {e.op})]
+      [] e.ev \in {"Open", "Close", "Reset"} -> [m EXCEPT !.tops = MapAll(@, LAMBDA o : [o EXCEPT !.w = -1]), !.owner = IF e.ev = "Reset" THEN EmptyMap ELSE @]
+      [] e.ev = "NextSvc" /\ "state" \in DOMAIN e /\ e.state \in {"Connected", "PendingDisconnect"} /\ Deadlines(m) # {} ->
+             LET d == MinOfSet(Deadlines(m)) IN
+             IF e.at = -1 \/ (e.at > d /\ e.at > e.t) THEN [Breach(m, e, "timer-ignored") EXCEPT !.skip = FALSE] ELSE m
+      [] OTHER -> m
+
+Apply(m0, e) ==
+    IF e.ev = "Cfg" THEN [Init0 EXCEPT !.run = e.run, !.errs = m0.errs, !.faithful = (e.faithful = 1)]
+    ELSE IF m0.skip THEN m0
+    ELSE LET m == Timers(m0, e) IN
+    IF ~m.faithful THEN m
     ELSE CASE e.ev = "PumpLimit" -> Breach(m, e, "spin")
            [] e.ev = "Quiesce" ->
                   IF e.open = 1 /\ e.responsive = 1 /\ e.state = "PendingConnack" THEN Breach(m, e, "stranded")
